@@ -39,6 +39,12 @@ _counter = itertools.count()
 
 FRAMEWORKS = {"PyArrowTable": PyArrowTable, "PandasDataFrame": PandasDataFrame, "PythonDictFramework": PythonDictFramework}
 FW_SHORT = {"pa": PyArrowTable, "pd": PandasDataFrame, "py": PythonDictFramework}
+# further compute frameworks (plain subclasses of PyArrowTable) for requests that need more than three frameworks
+for _i in range(2, 6):
+    _c = type(f"VerifArrow{_i}", (PyArrowTable,), {"__module__": MODNAME})
+    setattr(DYN, _c.__name__, _c)
+    FRAMEWORKS[_c.__name__] = _c
+    FW_SHORT[f"pa{_i}"] = _c
 
 LOG_ENV = "VERIF_EVENT_LOG"
 
@@ -122,7 +128,7 @@ def to_columns(data: Any) -> Dict[str, List[Any]]:
 
 def from_columns(cols: Dict[str, List[Any]], fw: Type[Any]) -> Any:
     """Build the native table of a framework from {col: values}."""
-    if fw is PyArrowTable:
+    if isinstance(fw, type) and issubclass(fw, PyArrowTable):
         return pa.table(cols) if cols else pa.table({})
     if fw is PandasDataFrame:
         import pandas as pd
@@ -169,8 +175,9 @@ def add_columns(data: Any, new: Dict[str, List[Any]], inplace: bool = False) -> 
 # expression language shared with the Lean model (Model/Eval): evaluated row-wise on python values
 
 
-def eval_expr(e: Any, row: Dict[str, Any]) -> Any:
-    """e: ["col", name] | ["const", v] | ["add"|"sub"|"mul", e1, e2] | ["cat", e1, e2]; None propagates."""
+def eval_expr(e: Any, row: Dict[str, Any], opts: Optional[Callable[[str], Any]] = None) -> Any:
+    """e: ["col", name] | ["const", v] | ["opt", key, default] | ["add"|"sub"|"mul", e1, e2] | ["cat", e1, e2]; None propagates.
+    ["opt", key, default] is the value of the feature's option `key` (read through `opts`), `default` when the option is not set."""
     op = e[0]
     if op == "col":
         if e[1] not in row:
@@ -178,8 +185,11 @@ def eval_expr(e: Any, row: Dict[str, Any]) -> Any:
         return row[e[1]]
     if op == "const":
         return e[1]
-    a = eval_expr(e[1], row)
-    b = eval_expr(e[2], row)
+    if op == "opt":
+        v = opts(e[1]) if opts is not None else None
+        return e[2] if v is None else v
+    a = eval_expr(e[1], row, opts)
+    b = eval_expr(e[2], row, opts)
     if a is None or b is None:
         return None
     if op == "add":
@@ -196,7 +206,7 @@ def eval_expr(e: Any, row: Dict[str, Any]) -> Any:
 def expr_cols(e: Any) -> List[str]:
     if e[0] == "col":
         return [e[1]]
-    if e[0] == "const":
+    if e[0] in ("const", "opt"):
         return []
     return expr_cols(e[1]) + expr_cols(e[2])
 
@@ -271,7 +281,7 @@ def make_group(
                     vals = []
                     for i in range(nrows):
                         row = {c: cols[c][i] for c in cols}
-                        vals.append(eval_expr(d["expr"], row))
+                        vals.append(eval_expr(d["expr"], row, features.get_options_key))
                     base = n.split("~")[0]
                     if base in spec["multi"]:
                         for k in range(spec["multi"][base]):
@@ -305,6 +315,8 @@ def make_group(
             out = set()
             for p in d["parents"]:
                 popts = (d.get("parent_opts") or {}).get(p)
+                if popts is None and p in (d.get("pass_opts") or []):
+                    popts = options  # hand the feature's own options down to this parent (option-driven chains)
                 out.add(Feature(p, options=popts) if popts else Feature(p))
             return out
 
